@@ -49,6 +49,8 @@ class Ctx:
 
 
 def build(sort, data, ctx: Ctx):
+    if hasattr(sort, 'build_model'):
+        return sort.build_model(data, ctx)
     if isinstance(sort, (IntS, BoolS)):
         return data
     if isinstance(sort, NoneS):
@@ -108,6 +110,8 @@ def build(sort, data, ctx: Ctx):
 
 
 def abstract(sort, obj, ctx: Ctx):
+    if hasattr(sort, 'abstract_model'):
+        return sort.abstract_model(obj, ctx)
     if isinstance(sort, (IntS, BoolS)):
         return obj
     if isinstance(sort, NoneS):
@@ -172,6 +176,8 @@ class Lifter:
 
     def lift(self, sort, data):
         st = self.st
+        if hasattr(sort, 'lift_model'):
+            return sort.lift_model(data, self)
         if isinstance(sort, IntS):
             return VInt(z3.IntVal(data))
         if isinstance(sort, BoolS):
@@ -376,6 +382,9 @@ def run_concrete(contract: Contract, data: dict, factories=None, abstracters=Non
             st1.out = l1.lift(ListS(contract.yields), rdata)
             out.outcome = ('return', rdata)
             extra['result'] = VNone()
+        elif hasattr(contract, 'lift_result'):
+            extra['result'] = contract.lift_result(result, l1)
+            out.outcome = ('return', repr(result))
         else:
             if rs is None or (result is None and not isinstance(rs, OptS)):
                 rs = infer_sort(result)
